@@ -575,4 +575,206 @@ theorem Dense.setSubtensor_eq [Zero α] (T : Dense α) (parts : List RPart) (v :
         simp only [npIndex_simple rs hd, npBroadcast, MArr.regionValues]
         rw [outerF_length, numel_keptShape rs hd]
 
+/-! ### reads -/
+
+theorem subsubsref_eq_vecOut (vals : List α) : Dense.subsubsref vals = MArr.vecOut vals := by
+  cases vals with
+  | nil => rfl
+  | cons a t => cases t <;> rfl
+
+theorem DRel.map_get [Zero α] {T : Dense α} {m : MArr α} (h : DRel T m) (l : List (List Nat))
+    (hl : ∀ x ∈ l, InBounds T.shape x) : l.map T.get = l.map m.get :=
+  List.map_congr_left fun x hx => h.cell x (hl x hx)
+
+/-- Reading an array of full subscripts. -/
+theorem Dense.getItem_subs [Zero α] {T : Dense α} {m : MArr α} (h : DRel T m) (rows : List (List Nat)) :
+    T.getItem (.subs rows) = m.read (.subs rows) := by
+  cases rows with
+  | nil => rfl
+  | cons r0 rest =>
+    simp only [Dense.getItem, MArr.read, List.isEmpty_cons, Bool.false_eq_true, false_or, ← h.shape]
+    by_cases hb : ((r0 :: rest).any fun r => !inBounds T.shape r) = true
+    · simp [hb]
+    · simp only [hb, Bool.false_eq_true, ↓reduceIte, subsubsref_eq_vecOut]
+      rw [h.map_get]
+      intro x hx
+      rw [Bool.not_eq_true, List.any_eq_false] at hb
+      have := hb x hx
+      rw [← inBounds_iff]
+      simpa using this
+
+/-- Reading through linear indices. -/
+theorem Dense.getItem_linear [Zero α] {T : Dense α} {m : MArr α} (h : DRel T m) (hs : T.shape ≠ [])
+    (key : Key) (hk : ∀ rows, key ≠ .subs rows) (hk' : ∀ parts, key ≠ .region parts) :
+    T.getItem key = m.read key := by
+  have tail : ∀ idx : List Int,
+      (do let subs ← ttInd2sub T.shape idx
+          Except.ok (Dense.subsubsref (subs.map T.get)) : Except Reject (ReadOut α)) =
+      (do let targets ← MArr.linTargets T.shape idx
+          Except.ok (MArr.vecOut (targets.map m.get))) := by
+    intro idx
+    rw [ttInd2sub_eq_linTargets hs]
+    cases ht : MArr.linTargets T.shape idx with
+    | error e => rfl
+    | ok t =>
+      simp only [bind, Except.bind, subsubsref_eq_vecOut]
+      rw [h.map_get t (linTargets_inBounds ht)]
+  cases key with
+  | subs rows => exact absurd rfl (hk rows)
+  | region parts => exact absurd rfl (hk' parts)
+  | lin i =>
+    simp only [Dense.getItem, MArr.read, MArr.linIdx, ← h.shape, bind, Except.bind, pure, Except.pure]
+    exact tail [i]
+  | linList is =>
+    simp only [Dense.getItem, MArr.read, MArr.linIdx, ← h.shape, bind, Except.bind, pure, Except.pure]
+    exact tail is
+  | linSlice a b c =>
+    simp only [Dense.getItem, MArr.read, MArr.linIdx, ← h.shape, cells_eq_numel hs]
+    cases pySlice (numel T.shape) a b c with
+    | error e => rfl
+    | ok l => exact tail (l.map Int.ofNat)
+
+theorem npPart_simple (e : Nat) (p : RPart) (hp : p.simple = true) :
+    npPart e p = (MArr.regionPart e false false p).map toNPart := by
+  cases p with
+  | list is => simp [RPart.simple] at hp
+  | int i =>
+    simp only [npPart, MArr.regionPart, Except.map]
+    by_cases hi : 0 ≤ i
+    · have h1 : ¬ i < 0 := by omega
+      simp only [hi, h1, if_true, if_false, Bool.false_eq_true, or_false]
+      by_cases h2 : i.toNat < e
+      · have : 0 ≤ i ∧ i < (e : Int) := by omega
+        simp [h2, this, toNPart]
+      · have : ¬ (True ∧ i < (e : Int)) := by omega
+        rw [if_neg this]
+        simp [h2]
+    · have h1 : i < 0 := by omega
+      simp only [hi, h1, if_true, if_false]
+      by_cases h3 : 0 ≤ i + (e : Int)
+      · have : 0 ≤ i + (e : Int) ∧ i + (e : Int) < (e : Int) := by omega
+        simp [h3, this, toNPart]
+      · have : ¬ (0 ≤ i + (e : Int) ∧ i + (e : Int) < (e : Int)) := by omega
+        rw [if_neg this]
+        simp [h3]
+  | slice a b c =>
+    simp only [npPart, MArr.regionPart, MArr.sliceExtent, Bool.false_eq_true, ↓reduceIte, bind, Except.bind,
+      Except.map]
+    rcases hs : pySlice e a b c with _ | l <;> simp [toNPart]
+
+theorem npParts_simple (s : List Nat) (parts : List RPart) (hp : parts.all RPart.simple = true)
+    (hl : parts.length = s.length) :
+    npParts s parts = (MArr.regionParts false s parts).map (fun rs => rs.map toNPart) := by
+  induction parts generalizing s with
+  | nil =>
+    cases s with
+    | nil => rfl
+    | cons e es => simp at hl
+  | cons p ps ih =>
+    simp only [List.all_cons, Bool.and_eq_true] at hp
+    cases s with
+    | nil => simp at hl
+    | cons e es =>
+      simp only [npParts, MArr.regionParts, npPart_simple e p hp.1, ih es hp.2 (by simpa using hl), bind,
+        Except.bind, pure, Except.pure, Except.map]
+      rcases MArr.regionPart e false false p with ⟨⟨⟩⟩ | r
+      · rfl
+      · rcases MArr.regionParts false es ps with ⟨⟨⟩⟩ | rs <;> rfl
+
+theorem regionPart_read_extent {ext : Nat} {isNew : Bool} {p : RPart} {r : Nat × List Nat × Bool}
+    (h : MArr.regionPart ext isNew false p = .ok r) : r.1 = ext := by
+  cases p with
+  | int i =>
+    simp only [MArr.regionPart, Bool.false_eq_true, or_false] at h
+    split at h
+    · split at h
+      · cases h; show max ext (i.toNat + 1) = ext; omega
+      · cases h
+    · split at h
+      · cases h; rfl
+      · cases h
+  | list is =>
+    simp only [MArr.regionPart, Bool.false_eq_true, or_false] at h
+    split at h
+    · cases h
+    · split at h
+      · cases h; show max ext (maxNat is + 1) = ext; omega
+      · cases h
+  | slice a b c =>
+    simp only [MArr.regionPart, MArr.sliceExtent, Bool.false_eq_true, ↓reduceIte, bind, Except.bind] at h
+    split at h
+    · cases h
+    · cases h; rfl
+
+theorem regionParts_read_shape {s : List Nat} {parts : List RPart} {rs : List (Nat × List Nat × Bool)}
+    (h : MArr.regionParts false s parts = .ok rs) : rs.map (·.1) = s := by
+  induction parts generalizing s rs with
+  | nil =>
+    cases s with
+    | nil => simp [MArr.regionParts] at h; subst h; rfl
+    | cons e es => simp [MArr.regionParts] at h
+  | cons p ps ih =>
+    cases s with
+    | nil => simp [MArr.regionParts, bind, Except.bind] at h
+    | cons e es =>
+      simp only [MArr.regionParts, bind, Except.bind, pure, Except.pure] at h
+      cases h1 : MArr.regionPart e false false p with
+      | error e' => rw [h1] at h; cases h
+      | ok r =>
+        rw [h1] at h
+        cases h2 : MArr.regionParts false es ps with
+        | error e' => rw [h2] at h; cases h
+        | ok rs' =>
+          rw [h2] at h
+          cases h
+          simp [regionPart_read_extent h1, ih h2]
+
+/-- Reading an integer/slice region. -/
+theorem Dense.getItem_region [Zero α] {T : Dense α} {m : MArr α} (h : DRel T m) (parts : List RPart)
+    (hp : parts.all RPart.simple = true) (hne : parts ≠ []) :
+    T.getItem (.region parts) = m.read (.region parts) := by
+  have hemp : parts.isEmpty = false := by cases parts <;> simp_all
+  simp only [Dense.getItem, MArr.read, hemp, Bool.false_eq_true, ↓reduceIte, ← h.shape]
+  by_cases hl : parts.length = T.shape.length
+  · simp only [hl, ne_eq, not_true_eq_false, ↓reduceIte, npParts_simple T.shape parts hp hl]
+    cases hr : MArr.regionParts false T.shape parts with
+    | error e => rfl
+    | ok rs =>
+      have hd := regionParts_dropped hr
+      simp only [Except.map, bind, Except.bind, npIndex_simple rs hd]
+      have hin : ∀ x ∈ outerF (rs.map (·.2.1)), InBounds T.shape x := by
+        have := outerF_inBounds rs (regionParts_lt hr)
+        rw [regionParts_read_shape hr] at this
+        exact this
+      rw [h.map_get _ hin]
+      have hkeep : (rs.map toNPart).any NPart.keeps = !(MArr.keptShape rs).isEmpty := by
+        unfold MArr.keptShape
+        clear hin hd hr
+        induction rs with
+        | nil => rfl
+        | cons r rs ih => cases hk : r.2.2 <;> simp [toNPart, NPart.keeps, hk, ih]
+      rw [hkeep]
+      cases hks : MArr.keptShape rs with
+      | nil =>
+        have hlen : (outerF (rs.map (·.2.1))).length = 1 := by
+          rw [outerF_length, ← numel_keptShape rs hd, hks]; rfl
+        simp only [List.isEmpty_nil, Bool.not_true, Bool.false_eq_true, ↓reduceIte]
+        obtain ⟨x, ho⟩ : ∃ x, outerF (rs.map (·.2.1)) = [x] := by
+          match ho : outerF (rs.map (·.2.1)), hlen with
+          | [x], _ => exact ⟨x, rfl⟩
+          | [], hh => simp at hh
+          | _ :: _ :: _, hh => simp at hh
+        rw [ho]
+        simp
+      | cons k ks => simp
+  · have hne' : ¬ parts.length = T.shape.length := hl
+    simp only [ne_eq, hne', not_false_eq_true, ↓reduceIte]
+    cases hr : MArr.regionParts false T.shape parts with
+    | error e => rfl
+    | ok rs =>
+      have h1 := regionParts_length hr
+      have h2 := congrArg List.length (regionParts_read_shape hr)
+      simp only [List.length_map] at h2
+      omega
+
 end Pyttb
